@@ -22,9 +22,42 @@ class SpySolver:
         self.calls.append((Mc, bc, np.array(x, copy=True)))
         return x
 
+    def as_default(self, M, RHS):
+        """stand-in for the module-level spsolve of pyfvtool.pdesolver (see solve_with): records the system and lets the
+        ORIGINAL default solver solve the very objects it was given"""
+        Mc = sp.csr_array(M).copy()
+        bc = np.array(RHS, dtype=float, copy=True)
+        x = self._orig(M, RHS)
+        self.calls.append((Mc, bc, np.array(x, copy=True)))
+        return x
+
     @property
     def last(self):
         return self.calls[-1]
+
+
+class HookNotReached(Exception):
+    pass
+
+
+def solve_with(pf, spy, phi, terms, default_path=False):
+    """solvePDE observed by the spy: either through the documented externalsolver= boundary, or - default_path - with NO external
+    solver, the library's own default-solver branch being executed and observed by temporarily replacing the name it resolves
+    (pyfvtool.pdesolver.spsolve). A default branch that no longer calls that name leaves the spy without a record: HookNotReached
+    (inconclusive, exit 2), never a silent pass."""
+    if not default_path:
+        return pf.solvePDE(phi, terms, externalsolver=spy)
+    import pyfvtool.pdesolver as ps
+    n0 = len(spy.calls)
+    spy._orig = ps.spsolve
+    ps.spsolve = spy.as_default
+    try:
+        ret = pf.solvePDE(phi, terms)
+    finally:
+        ps.spsolve = spy._orig
+    if len(spy.calls) == n0:
+        raise HookNotReached('solvePDE without an external solver did not call pyfvtool.pdesolver.spsolve')
+    return ret
 
 
 def nerr(lhs, rhs, scale):
